@@ -14,7 +14,7 @@ import (
 func init() {
 	register(&Rule{ID: "C07.CONV", Min: 2, Doc: "placeholder-relative positions are mapped onto the scalar by base + value - 1", Run: runC07Conv})
 	register(&Rule{ID: "C07.ACCUM", Min: 4, Doc: "the column base of each placeholder equals the number of bytes sliced off before it", Run: runC07Accum})
-	register(&Rule{ID: "C07.QUOTE", Min: 8, Doc: "a column derived from a scalar's position is advanced by one iff the scalar is quoted, once", Run: runC07Quote})
+	register(&Rule{ID: "C07.QUOTE", Min: 6, Doc: "a column derived from a scalar's position is advanced by one iff the scalar is quoted, once", Run: runC07Quote})
 	register(&Rule{ID: "C07.FIELDS", Min: 12, Doc: "line, column and offset are copied field to field of the same meaning", Run: runC07Fields})
 	register(&Rule{ID: "C07.ARGS", Min: 8, Doc: "line and column arguments are passed in the order of the callee's parameters", Run: runC07Args})
 	register(&Rule{ID: "C07.TOKEN", Min: 20, Doc: "a node is reported at its own token or at the token of its leftmost operand; the token kept in a node is the first token of what was parsed", Run: runC07Token})
